@@ -198,7 +198,7 @@ def mon_locking(pid, run):
             continue
         led.feed(op, impl)
         c = crit(impl)
-        if pid == "C13" and kind in ("hook.lock.begin", "hook.lock.end", "hook.rel.end") and not c.startswith("ok"):
+        if pid == "C13" and kind in ("hook.lock.begin", "hook.lock.end", "hook.rel.end") and not c.startswith("ok") and c != "n/a":
             # a begin block without any vote info is an artefact of a harness history that emptied the set
             if not (kind == "hook.lock.begin" and "zero-power" in impl):
                 hits.append((i, "block hook failed: %s" % impl[:120]))
@@ -502,8 +502,13 @@ def mon_app(pid, run):
             continue
         if impl.strip() == "=> panic-recovered" and pid == "C19":
             hits.append((i, "the harness itself had to recover a panic of the real code outside any transaction: %s" % op[:80]))
+        if pid in ("C08", "C19") and kind == "a.prepare" and c != "ok":
+            hits.append((i, "the node's own PrepareProposal handler %s with %s of this block's transactions in its mempool (no engine fault scripted)" % (
+                "never returned (node stuck building its proposal)" if c == "hang" else "failed: " + impl[3:120], a.get("admitted"))))
         if pid == "C07" and kind == "a.det" and a.get("same") == "0":
             hits.append((i, "same block, same state, different result: %s" % a.get("detail")))
+        if pid == "C13" and kind == "a.export" and a.get("same") == "0" and re.match(r"(state-differs:lock:|initial-validator-set-differs|imported-chain-halts)", a.get("detail", "")):
+            hits.append((i, "a chain started from the exported state does not carry the same ranking / validator set (the reported set stops being the top-K of the module's record): %s" % a.get("detail")))
         if pid == "C18" and kind == "a.export" and a.get("same") == "0":
             hits.append((i, "export/import is not an identity: %s" % a.get("detail")))
         if pid == "C08" and kind == "a.process" and a.get("honest") == "1" and a.get("newstatus") == "VALID" and c != "ok":
